@@ -374,7 +374,7 @@ class C13(Check):
 
 class C14(Check):
     pid = "C14"
-    lean_modules = []
+    lean_modules = ["MTProps.C14"]
 
     def body(self):
         rng = self.rng
